@@ -70,6 +70,7 @@ pub fn problems(tier: Tier) -> Vec<(String, PProblem)> {
 pub fn problems_for(tier: Tier, scope: Scope) -> Vec<(String, PProblem)> {
     let mut out = problems(tier);
     out.extend(family_timedep().into_iter().map(|p| ("timedep".to_string(), p)));
+    out.extend(family_recharge().into_iter().map(|p| ("recharge".to_string(), p)));
     // required breaks: accounting rules and the break's own hard rules
     if matches!(scope, Scope::Accounting | Scope::Hard) {
         out.extend(family_reqbreak().into_iter().map(|p| ("reqbreak".to_string(), p)));
